@@ -5,7 +5,7 @@ import random
 
 import z3
 
-from harness.common import Ctx, byte_obligation, io_cases, mi, read_scenario
+from harness.common import Ctx, byte_obligation, fault_finish, fault_mode, io_cases, mi, read_scenario
 from oracles.mem import SymMem, SymOpaque
 from oracles import hds as spec
 from symx import core, files, layouts, loader
@@ -53,6 +53,9 @@ def read_task(prop, cfg, tier, seed):
     m = load()
     ctx = Ctx(prop, "hds.read", cfg, tier, seed, engine_kw=dict(max_decisions=cfg.get("max_decisions", 600)))
     rng = random.Random(seed)
+    fault = bool(cfg.get("fault"))
+    if fault:
+        fault_mode(ctx)
     sig = spec.SIG_V1 if version == 1 else spec.SIG_V2
 
     def body(E, ctx):
@@ -67,7 +70,8 @@ def read_task(prop, cfg, tier, seed):
             nsec = files.word_at("img", 36, 8, "le")
             nsec = E.assume_range(nsec, 1, 1 << 44)
         E.assume(nsec >= 1)
-        E.assume(nbat * tracks >= nsec)  # the BAT covers the disk
+        if not fault:
+            E.assume(nbat * tracks >= nsec)  # the BAT covers the disk
         size = nsec * 512
         offset = E.var("offset", 0, 1 << 53)
         length = E.var("length", 512, N * cs)
@@ -96,6 +100,8 @@ def read_task(prop, cfg, tier, seed):
         ctx.scenario.small = [nbat]
         obj = m.HDS(fh, parent)
         res = obj._read(offset, length)
+        if fault:
+            return fault_finish(ctx, E, res, length, cs)
         sv = spec.guest_byte(offset + j, version, tracks, mem, par)
         bad = byte_obligation(res, j, explen, sv, extra=[obj.size != size], maxlen=length if cfg.get("tail") else None)
         if cfg.get("io"):
